@@ -58,6 +58,26 @@ def domFrom (all : List Val) : List Field → List Val → List Field → List V
 
 def inDomain (s : MsgSchema) (vs : List Val) : Bool := domFrom vs [] [] s.fields vs
 
+/-! ## The same domain in plain words (bridged to `inDomain` by `C01_domain_plain`) -/
+
+/-- nothing of these fields is written by the encoder -/
+def noneEmitted (all : List Val) : List Field → List Val → Bool
+  | [], [] => true
+  | f :: fs, v :: vs => !emitted all f v && noneEmitted all fs vs
+  | _, _ => false
+
+/-- **Plain wire domain**: one value per field; a field whose guard does not hold is `None`; a field
+whose guard holds is present — except that an `optional` field whose dataclass default is `None`
+may be `None` when nothing after it is written (the optional fields form a present-prefix). Integer
+ranges, string / array lengths are whatever the encoder accepts (`encodeFrame … = some _`). -/
+def plainDom (all : List Val) : List Field → List Val → Bool
+  | [], [] => true
+  | f :: fs, v :: vs =>
+    (if !guardEnc f.cond all then v.isAbsent
+     else if v.isAbsent then f.optional && f.dflt == .none && noneEmitted all fs vs
+     else true) && plainDom all fs vs
+  | _, _ => false
+
 /-! ## Schema well-formedness (about the table, independent of values) -/
 
 def Field.guardOk (fs : List Field) (pos : Nat) (f : Field) : Bool :=
